@@ -294,6 +294,18 @@ def start_nodes(ctx: Ctx):
     var = _ast.unparse(halves[0].targets[0]) if halves else "?"
     ok = bool(halves) and f"% {var} + 1" in src
     ctx.ob("C12.d", "PDPEnv.select_start_nodes:pickups", ok, fi.loc, "start index = replica % (num_loc // 2) + 1: pickups only", construct="PDPEnv.select_start_nodes:range")
+    # sampled starts: with replacement only when fewer than n valid actions exist
+    fi = ctx.repo.get_function(OPS, "sample_n_random_actions")
+    ctx.fn(fi)
+    ok, why = False, "replacement test not found"
+    for node in _ast.walk(fi.node):
+        if isinstance(node, _ast.If) and isinstance(node.test, _ast.Compare) and any(isinstance(b, _ast.Assign) and _ast.unparse(b) == "replace = True" for b in node.body):
+            t = node.test
+            l, op, r_ = _ast.unparse(t.left), t.ops[0], _ast.unparse(t.comparators[0])
+            strict_lt = (isinstance(op, _ast.Lt) and "valid" in l and r_ == "n") or (isinstance(op, _ast.Gt) and "valid" in r_ and l == "n")
+            ok = strict_lt
+            why = f"replace = True iff `{_ast.unparse(t)}`" + ("" if ok else ": must be strictly fewer valid actions than requested (with exactly n valid actions the n starts have to be distinct)")
+    ctx.ob("C12.d", "sample_n_random_actions:replacement-only-if-needed", ok, fi.loc, why, construct="sample_n_random_actions:replacement")
     return n
 
 
